@@ -114,6 +114,24 @@ func genC12(seed uint64, tier string) *plan.Plan {
 		}
 		pl.Cfg["stop_ms"] = 0
 	}
+	if pl.Cfg["transport"] == 1 {
+		// A UDP exporter that falls silent for as long as, or longer than, the collector keeps a peer's
+		// handler (1800 s without a datagram) and then goes on from the same address: what it sends
+		// afterwards is delivered at most once and in order like everything else, Stop still returns, and
+		// nothing of the first handler is left. A stream of its own keeps older plans as they were.
+		r2 := rand.New(rand.NewPCG(seed, 0xc12d))
+		if r2.IntN(4) == 0 {
+			c := r2.IntN(len(pl.Ops))
+			if op := pl.Ops[c]; op.K == "client" && op.B >= 2 {
+				pl.Cfg["silent_client"] = int64(op.T + 1)
+				pl.Cfg["silent_after"] = int64(r2.IntN(int(op.B) - 1))
+				pl.Cfg["silent_s"] = []int64{1800, 1801, 1900, 3600, 7000}[r2.IntN(5)]
+				if r2.IntN(3) > 0 {
+					pl.Cfg["stop_ms"] = 0 // Stop after every client has finished (else: wherever it was placed, e.g. inside the silence)
+				}
+			}
+		}
+	}
 	genSchedule(r, pl, 6, 6000)
 	return pl
 }
@@ -340,6 +358,12 @@ func runC12(pl *plan.Plan, out *plan.Outcome) {
 				sent[op.T] = n
 				if op.D > 0 {
 					env.Sleep(time.Duration(op.D) * time.Microsecond)
+				}
+				if int(cfgOr(pl, "silent_client", 0)) == op.T+1 && m == int(cfgOr(pl, "silent_after", 0)) {
+					// this exporter falls silent for longer than the collector keeps a UDP peer's handler
+					// (1800 s), then goes on from the same address
+					env.Count("fault.udp_peer_silent_beyond_handler_timeout", 1)
+					env.Sleep(time.Duration(cfgOr(pl, "silent_s", 1900)) * time.Second)
 				}
 			}
 			if op.S == "stay" {
